@@ -98,7 +98,25 @@ func c07Derive(k *core.Case) {
 	key := newInfoKey(e, i, p, d)
 	var err error
 	k.Eval(1)
-	pn := core.Try(func() { err = key.GenerateKeyForIKESA(nonce, shared, spii, spir) })
+	// the arguments as a caller may hold them: in every third case nonces and secret lie back to back in ONE exchange
+	// buffer with spare room behind (sub-slices with spare capacity); the function must treat them as read-only inputs
+	argN, argS := nonce, shared
+	var exch, exchCopy []byte
+	if k.Index%3 == 2 {
+		exch = make([]byte, 0, len(nonce)+len(shared)+64)
+		exch = append(append(exch, nonce...), shared...)
+		exch = exch[:len(exch)+32]
+		argN, argS = exch[:len(nonce)], exch[len(nonce):len(nonce)+len(shared)]
+		exchCopy = append([]byte{}, exch...)
+		w["layout"] = "nonces | secret | spare in one buffer"
+	}
+	pn := core.Try(func() { err = key.GenerateKeyForIKESA(argN, argS, spii, spir) })
+	if exch != nil && !bytes.Equal(exch, exchCopy) {
+		// not itself something C07 states; it matters when it changes the keys (judged below against the reference
+		// computed from private copies of the inputs)
+		k.Count("callers_buffer_modified_by_key_derivation(not judged by itself)", 1)
+		w["callers_buffer_modified"] = true
+	}
 	if pn != nil {
 		k.Violate("panic", "derive: "+pn.Sig(), "GenerateKeyForIKESA panicked", panicData(pn, w))
 		return
